@@ -22,7 +22,10 @@ type flusher interface {
 }
 
 func (f FlushComponent) Render(ctx context.Context, w io.Writer) (err error) {
-	if err = GetChildren(ctx).Render(ctx, w); err != nil {
+	children := GetChildren(ctx)
+	// Stop the block passed to Flush from being seen as the children of components inside it.
+	ctx = ClearChildren(ctx)
+	if err = children.Render(ctx, w); err != nil {
 		return err
 	}
 	switch w := w.(type) {
